@@ -5,6 +5,8 @@ import (
 	"os"
 	"strings"
 
+	"github.com/git-lfs/git-lfs/v3/git"
+	"github.com/git-lfs/git-lfs/v3/git/gitattr"
 	"github.com/git-lfs/git-lfs/v3/tools"
 	"github.com/git-lfs/git-lfs/v3/tr"
 	"github.com/spf13/cobra"
@@ -29,6 +31,29 @@ func untrackCommand(cmd *cobra.Command, args []string) {
 
 	attributes := strings.NewReader(string(data))
 
+	// The attribute macros in force (those of the top-level attributes
+	// files): a line may give a pattern the LFS filter through one of
+	// them instead of spelling "filter=lfs" out.
+	macros := gitattr.NewMacroProcessor()
+	git.GetAttributePaths(macros, cfg.LocalWorkingDir(), cfg.LocalGitDir())
+	tracksWithLFS := func(line string) bool {
+		if strings.Contains(line, "filter=lfs") {
+			return true
+		}
+		lines, _, err := gitattr.ParseLines(strings.NewReader(line))
+		if err != nil {
+			return false
+		}
+		for _, pl := range macros.ProcessLines(lines, false) {
+			for _, attr := range pl.Attrs() {
+				if attr.K == "filter" && attr.V == "lfs" {
+					return true
+				}
+			}
+		}
+		return false
+	}
+
 	attributesFile, err := os.Create(".gitattributes")
 	if err != nil {
 		Print(tr.Tr.Get("Error opening '.gitattributes' for writing"))
@@ -45,7 +70,7 @@ func untrackCommand(cmd *cobra.Command, args []string) {
 	// if the path was meant to be untracked, omit it, and print a message instead.
 	for scanner.Scan() {
 		line := scanner.Text()
-		if !strings.Contains(line, "filter=lfs") {
+		if len(strings.Fields(line)) == 0 || !tracksWithLFS(line) {
 			attributesFile.WriteString(line + "\n")
 			continue
 		}
